@@ -370,6 +370,17 @@ def run_case(rec, M, ctx, opts):
             if o in split_dis:
                 rec.count("split_dis_instr")
                 if o not in head_of:
+                    # a forced split never separates a branch from its delay slots
+                    blk = owner[o]
+                    pos = [l.offset for l in blk.lines].index(o)
+                    in_ds = False
+                    for j in range(pos):
+                        fi = M.flow_info(dec, blk.lines[j].offset, oldb)
+                        if fi is not None and fi["breakflow"] and pos <= j + fi["delayslot"]:
+                            in_ds = True
+                    if in_ds:
+                        rec.count("split_dis_in_delayslot_ignored")
+                        continue
                     fail("split_dis address inside a block",
                          "%#x is in split_dis but in the middle of block %#x" % (
                              o, ldb.get_location_offset(owner[o].loc_key)))
